@@ -119,13 +119,13 @@ struct C16 : Prop {
 	std::vector<int> created_before;
 	std::map<std::string, int64_t> live_by_kind;
 	std::vector<std::string> transcripts, states;
-	uint64_t leak_checks = 0, shutdown_msgs = 0, compared = 0;
+	uint64_t leak_checks = 0, shutdown_msgs = 0, compared = 0, robust_compared = 0;
 	std::set<int> thread_set_sizes;
 	size_t tev_begin = 0;
 
 	void attach(Engine &e) override {
 		world = cfg::from_json(e.plan["world"]);
-		live_by_kind.clear(); transcripts.clear(); states.clear(); leak_checks = shutdown_msgs = compared = 0; thread_set_sizes.clear(); tev_begin = 0;
+		live_by_kind.clear(); transcripts.clear(); states.clear(); leak_checks = shutdown_msgs = compared = robust_compared = 0; thread_set_sizes.clear(); tev_begin = 0;
 	}
 
 	void on_session_start(Engine &e, int s, int ret) override {
@@ -211,10 +211,23 @@ struct C16 : Prop {
 			char sq[8]; snprintf(sq, sizeof sq, "#%u ", w.msg.seq);
 			tr += pc::msg_key(w.msg) + sq;
 		}
-		transcripts.push_back(tr);
 		std::string st;
 		for (auto &o : e.oplog) if (o.session == s && o.op->gets("op") == "get") st += o.result.dump();
 		for (auto &o : e.oplog) if (o.session == s && o.has_bytes) st += hex_of(o.bytes);
+		// Scheduling faults (descheduling at lock points, starvation) hit the session and its reference copy at different moments:
+		// packet boundaries, the interleaving of receiver-made and application-made messages and the moment a getter runs relative
+		// to an answer then legitimately differ. Such runs compare what does not depend on timing: the multiset of messages per
+		// destination. Unperturbed runs (two thirds) compare transcripts, packet boundaries, getter results and read messages exactly.
+		bool perturbed = e.plan["sched"].geti("preempt_permille", 0) > 0 || e.plan["sched"].geti("policy", 0) == sim::P_STARVE;
+		if (perturbed) {
+			std::vector<std::string> keys;
+			for (size_t i = b; i < e.bus.wire.size(); i++) keys.push_back(pc::msg_key(e.bus.wire[i].msg));
+			std::sort(keys.begin(), keys.end());
+			tr.clear(); for (auto &k : keys) tr += k + " ";
+			st.clear();      // (a getter result depends on which answers have arrived when it runs)
+			robust_compared++;
+		}
+		transcripts.push_back(tr);
 		states.push_back(st);
 		if (se.has("reference_of")) {
 			size_t r0 = (size_t) se.geti("reference_of");
@@ -234,7 +247,7 @@ struct C16 : Prop {
 	void coverage(Engine &e, J &f) override {
 		f.set("nontrivial", e.plan["sessions"].size() >= 3 && thread_set_sizes.size() >= 2);
 		f.set("shape", (long long) (pc::shape_hash(e.plan) >> 1));
-		J p = J::obj(); p.set("leak_comparisons", (long long) leak_checks); p.set("shutdown_messages_checked", (long long) shutdown_msgs); p.set("reference_comparisons", (long long) compared);
+		J p = J::obj(); p.set("leak_comparisons", (long long) leak_checks); p.set("shutdown_messages_checked", (long long) shutdown_msgs); p.set("reference_comparisons", (long long) compared); p.set("reference_comparisons_timing_robust_form", (long long) robust_compared);
 		p.set("sessions", (long long) e.plan["sessions"].size());
 		f.set("probes", p);
 	}
